@@ -96,6 +96,10 @@ def obligations(tier):
         Ob("C07.loc.path", "X", "file name = text after the last '/' of the image path (reference: index loop), for every path",
            ["ceos_alos2.sar_image.caching.path:local_cache_location", "ceos_alos2.sar_image.caching.path:remote_cache_location"],
            bounds="forall path strings |s|<=4 (unicode); 3 concrete roots", harness="harness/h_cache.py", func="location_path_ok", timeout=to),
+        Ob("C07.opts", "X", "the product entry point hands use_cache / create_cache / records_per_chunk of THIS call to every image unchanged, for every combination (also "
+           "use_cache and create_cache together): with use_cache=True the per-image reader is told to use the cache, with False not to",
+           ["ceos_alos2.xarray:open_alos2", "ceos_alos2.io:open"], bounds="forall use_cache, create_cache, rpc (int), option keys present/absent; 1..3 images",
+           harness="harness/h_tree.py", func="opts_ok", timeout=to),
         Ob("C07.e2e", "E", "witness replay through open_alos2 on synthesised products: cache written by option / CLI, user cache dir / adjacent, "
            "local path / file:// / memory://, rpc at write != rpc at read: cached tree == uncached tree, pixels == synthesised samples",
            ["ceos_alos2.xarray:open_alos2", "ceos_alos2.io:open", "ceos_alos2.sar_image.cli:create_cache"],
